@@ -10,6 +10,7 @@ import Iso8583.Drivers.Net
 import Iso8583.Drivers.Describe
 import Iso8583.Drivers.Spec
 import Iso8583.Drivers.Layout
+import Iso8583.Drivers.Track
 
 namespace Iso8583.Driver
 
@@ -19,7 +20,8 @@ def handlers : List (List String → Option String) :=
     Iso8583.Drivers.Net.handle,
     Iso8583.Drivers.Describe.handle,
     Iso8583.Drivers.Spec.handle,
-    Iso8583.Drivers.Layout.handle ]
+    Iso8583.Drivers.Layout.handle,
+    Iso8583.Drivers.TrackDrv.handle ]
 
 def runLine (line : String) : String :=
   let toks := line.splitOn " "
